@@ -108,6 +108,7 @@ func runC09(c *Ctx) {
 	ruleNoCapInEncoders(c, p, "C09.lenonly")
 	ruleCompressibleTable(c, p, "C09.compressible-table")
 	ruleNoPrivateTimer(c, p, "C09.timer")
+	rulePrepareAlwaysRebuilds(c, p, "C09.prepare-rebuilds")
 	ruleForwardEvery(c, p, "C09.forward-every")
 	rulePrepareMethodSet(c, p, "C09.prepare-methodset")
 	// what a round's block carries is what the column encoders of the build in use write
